@@ -105,6 +105,6 @@ CCRAB  == <<240, 159, 166, 128>>
 CSQRT2 == <<226, 154, 136>>
 CCRAB2 == <<240, 159, 128, 166>>
 \* characters at the ends of each encoded width and around the surrogate gap:
-\* U+7F U+80 U+7FF U+800 U+D7FF U+E000 U+FFFF U+10000 U+10FFFF
-EdgeChars == {Encode(c) : c \in {127, 128, 2047, 2048, 55295, 57344, 65535, 65536, 1114111}}
+\* U+0 (an in-band sentinel in careless code) U+7F U+80 U+7FF U+800 U+D7FF U+E000 U+FFFF U+10000 U+10FFFF
+EdgeChars == {Encode(c) : c \in {0, 127, 128, 2047, 2048, 55295, 57344, 65535, 65536, 1114111}}
 =============================================================================
